@@ -10,13 +10,20 @@ from common import Check, lean_batch, tb
 
 TRUSTED = ['Lean 4.33.0 kernel (+ leanchecker in the thorough tier)',
            'axioms: propext, Classical.choice, Quot.sound only (audited per theorem)',
-           'harness/extract.py, harness/c16.py + iod.py (generators, independent header reader, comparison), Drv.lean protocol parsing',
+           'harness/extract.py, harness/c16.py + iod.py (generators, file reading with plain open() + iteration, comparison), Drv.lean protocol parsing',
            'compiled driver peldrv agrees with the kernel reading of the same definitions']
-ASSUME = ['the regex that reads the field table from the C header (HLOG_FIELD_RE) is not modelled: synthetic headers written from '
-          'abstract tables and an independent reader on the shipped files tie it to the abstract table',
+ASSUME = ['the field-table LOADER is modelled (PelModel/Regex.lean: backtracking matcher + HLOG_START_RE/HLOG_FIELD_RE/HLOG_END_RE as ASTs; '
+          'Loaders.lean: the in_data_structure line loop) and proved to read back printed tables (hlog_header_roundtrip, '
+          "lines_outside_table_ignored, non_matching_lines_skipped); that the ASTs denote the repo's pattern strings and that the matcher has "
+          "CPython's semantics is established by correspondence only: Lean loader vs get_hlog_fields(path) on the shipped headers, the synthetic "
+          'headers and the adversarial stream; the harness has no reader of its own any more, every table used for decoding is loaded by the model',
+          'files are read with open(path) + iteration exactly as the repo does (text mode, universal newlines, locale encoding = UTF-8 here)',
           'CPython f-string formatting {value:0NX} is modelled (fmtHex)']
 RULE = ('cases = (field table, history-log bytes): both shipped tables and synthetic ones, every length from 0 past the full record, '
-        'values all-zero / all-ones / single byte / random; non-trivial = at least one field fits; distinct by (table, bytes)')
+        'values all-zero / all-ones / single byte / random; non-trivial = at least one field fits; distinct by (table, bytes). '
+        'Loader cases = header files (shipped, synthetic, adversarial: handcrafted field/start/end line variants, small files with character-level '
+        'and file-level mutations, whole shipped headers with every line mutated); non-trivial = both loaders return a non-empty table; '
+        'distinct by file content')
 
 
 def run(tier, seed):
@@ -32,22 +39,28 @@ def run(tier, seed):
     try:
         reqs, meta = [], []
         tables = []
+        loader_files = []
         for name, (hdr, _) in iod.drawer_files().items():
-            mine = iod.read_hlog_fields(hdr)
             theirs = [(f.name, f.size) for f in hlog.get_hlog_fields(hdr)]
-            ck.case(key=('table', name, len(mine)), sample={'table': name, 'fields': len(mine)})
-            if mine != theirs:
-                ck.disagree('independent reader and get_hlog_fields disagree on ' + name, {'table': name})
+            loader_files.append(('shipped ' + name, hdr))
             tables.append((name, hdr, theirs))
         names = ['hl_a', 'hl_net_block_crc_failures', 'x', 'field with space', 'F_%d', 'ü']
         for t in range(40 if thorough else 10):
             fields = [(rng.choice(names) + str(i), rng.choice([1, 2])) for i in range(rng.randrange(0, 12))]
             path = os.path.join(tmp, 'h%d.h' % t)
             iod.write_hlog_header(path, fields)
+            loader_files.append(('synth%d' % t, path))
             tables.append(('synth%d' % t, path, fields))
+        # ---- the loader itself: Lean model vs get_hlog_fields(path), field by field
+        df = iod.drawer_files()
+        loader_files += iod.adversarial_files(rng, 'flds', tmp, 1500 if thorough else 150, 24 if thorough else 4, [df['mex'][0], df['nimitz'][0]])
+        ck.count('loader files with a non-empty table', iod.run_loader_stream(ck, 'flds', loader_files))
+        # ---- and the patterns themselves, one line at a time: None-ness and groups() of fullmatch
+        ck.count('lines matched by a pattern', iod.run_pattern_stream(ck, (3, 4, 5), rng, 6000 if thorough else 600, {3: iod.HLOG_STARTS, 4: iod.HLOG_LINES[:8], 5: iod.HLOG_ENDS}))
         for tid, (name, hdr, fields) in enumerate(tables):
-            reqs.append('deffld ' + iod.tok_flds(fields))
-            meta.append(None)
+            # the table the model decodes with is the one the LEAN loader reads from the file lines (fields only steers the generators)
+            reqs.append('deffldfile ' + iod.tok_lines(iod.file_lines(hdr)))
+            meta.append(('def', name))
             total = sum(sz for _, sz in fields)
             lens = list(range(0, total + 4)) if (thorough or total < 30) else sorted(set(rng.sample(range(0, total + 4), 25) + [0, 1, total - 1, total, total + 1, total + 3]))
             for n in lens:
@@ -67,7 +80,9 @@ def run(tier, seed):
                     meta.append((name, hdr, fields, data))
         replies = lean_batch(reqs)
         for m, r in zip(meta, replies):
-            if m is None:
+            if m[0] == 'def':
+                if not r.ok:
+                    ck.disagree('the model declines to load a field table the decode cases need', {'op': 'load-flds', 'case': m[1], 'reply': r.raw[:60]})
                 continue
             name, hdr, fields, data = m
             real = hlog.parse_hlog_data(memoryview(data), hdr)
